@@ -87,7 +87,7 @@ def gen_cases(ctx):
         {"info": {"est_name": "b"}, "stats": [["rmse", 3.0]], "arrays": [["b", [3.0, 2.0, 1.0]], ["a", [3.0, 4.0]]]}]}
     yield {"kind": "merge", "grid": True, "corpus": "F10-broadcast", "results": [
         {"info": {}, "stats": [["rmse", 1.0]], "arrays": [["a", [1.0, 2.0]], ["b", [1.0, 2.0, 3.0]]]},
-        {"info": {}, "stats": [["rmse", 3.0]], "arrays": [["a", [3.0, 2.0, 1.0]], ["b", [3.0, 4.0]]]}]}
+        {"info": {}, "stats": [["rmse", 3.0]], "arrays": [["b", [3.0, 4.0]], ["a", [3.0, 2.0, 1.0]]]}]}
     yield {"kind": "merge", "grid": True, "corpus": "single", "results": [
         {"info": {"est_name": "a"}, "stats": [["rmse", 1.0]], "arrays": [["e", [1.0, 2.0]]]}]}
     yield {"kind": "merge", "grid": True, "corpus": "order", "results": [
@@ -97,7 +97,7 @@ def gen_cases(ctx):
     yield {"kind": "merge", "grid": True, "corpus": "none", "results": []}
     for _ in range(500 if not th else 5000):
         yield gen_merge(r)
-    for _ in range(14 if not th else 150):
+    for _ in range(60 if not th else 800):
         nf = r.randint(1, 5)
         files = []
         for i in range(nf):
